@@ -7,6 +7,7 @@ import (
 	"fmt"
 	"go/token"
 	"go/types"
+	"os"
 	"strings"
 
 	"golang.org/x/tools/go/ssa"
@@ -583,6 +584,55 @@ func c09r6(c *core.Ctx) {
 					ok = true
 				}
 			}
+		})
+		// what is written is the encoding that succeeded: the body goes out on the branch where the encoder reported no error (the
+		// other branch answers with an error status)
+		core.Instrs(f, func(i ssa.Instruction) {
+			enc, isCall := i.(*ssa.Call)
+			if !isCall || core.Callee(i) == nil || !core.InModule(core.Callee(i)) || enc.Type().String() == "()" {
+				return
+			}
+			tup, isTuple := enc.Type().(*types.Tuple)
+			if !isTuple || tup.Len() != 2 || tup.At(1).Type().String() != "error" {
+				return
+			}
+			var buf, errv ssa.Value
+			for _, r := range *enc.Referrers() {
+				if e, isE := r.(*ssa.Extract); isE {
+					if e.Index == 0 {
+						buf = e
+					} else {
+						errv = e
+					}
+				}
+			}
+			if buf == nil || errv == nil {
+				return
+			}
+			core.Instrs(f, func(j ssa.Instruction) {
+				cc := core.CallOf(j)
+				if cc == nil {
+					return
+				}
+				uses := false
+				for _, a := range cc.Args {
+					if core.AnySource(a, func(sv ssa.Value) bool {
+						if sv == buf {
+							return true
+						}
+						call, ok := sv.(*ssa.Call)
+						return ok && len(call.Call.Args) > 0 && call.Call.Args[0] == buf
+					}) {
+						uses = true
+					}
+				}
+				if !uses || !(cc.IsInvoke() && cc.Method.Name() == "Write" || core.Callee(j) != nil && cn(core.Callee(j)) == "Write") {
+					return
+				}
+				e := errv
+				c.Check(core.Dominated(j, core.IsNilFact(func(v ssa.Value) bool { return v == e })), "encoded-body-written-on-success@"+fname(f), posOf(j), "the body is written where the encoder reported no error",
+					"the encoded body is written on a branch where the encoder's error is not known to be nil (test inverted or dropped): a successful encoding is answered with an error status, a failed one with whatever the buffer holds")
+			})
 		})
 		c.Check(ok, "accessories-encodes-live-container@"+fname(f), f.Pos(), "GET /accessories encodes the live container on every request", "GET /accessories does not encode the live container (a stored encoding is served): values set by the application afterwards are not visible")
 	}
@@ -2150,7 +2200,27 @@ func errorTestPolarity(c *core.Ctx, f *ssa.Function, signals func(ssa.Instructio
 							}
 						}
 					}
+					// inside a loop the tested value and the value handed back can be the same instruction in different iterations: if
+					// the test is met again later on this path and passed on its success edge there, what is returned is that later
+					// (nil) instance — the earlier failure is not reported by it
+					laterSucceeded := false
+					for m := k + 1; m+1 < len(pa); m++ {
+						if pa[m] == pa[k] {
+							laterSucceeded = pa[m+1] != pa[m].Succs[t.failIdx]
+						}
+					}
+					// an error variable of an earlier call that this path has already tested and found nil ( `x, err := f(); if err != nil
+					// { return }` … `return t, err` at the end ) is nil here: handing it back reports nothing
+					ev0 := errv
+					knownNil := ev0 != t.ev && ev0 != evHere && pathEstablishes(pa, core.IsNilFact(func(v ssa.Value) bool { return v == ev0 }))
+					if _, dismissed := polarityShadowDismissed[fname(f)]; dismissed {
+						knownNil = false
+					}
 					switch {
+					case knownNil:
+						byValue = false
+					case laterSucceeded && (errv == t.ev || errv == evHere):
+						byValue = false
 					case errv == t.ev || errv == evHere || shares(errv, t.ev) || shares(errv, evHere):
 						byValue = true
 					case provablyNonNil(pa, errv):
@@ -2179,6 +2249,11 @@ func errorTestPolarity(c *core.Ctx, f *ssa.Function, signals func(ssa.Instructio
 			}
 		}
 	})
+	if os.Getenv("HCSA_DEBUG_POLARITY") != "" {
+		for _, t := range tests {
+			println("  test", fname(f), p.Position(t.iff.Cond.Pos()), "silent", t.silent, "success", t.success, "enum", okEnum)
+		}
+	}
 	if !okEnum {
 		c.Undecided("error-test-polarity@"+fname(f), f.Pos(), "too many paths")
 		return
@@ -2573,4 +2648,10 @@ func cellValueAt(pa core.Path, k int, v ssa.Value) ssa.Value {
 		}
 	}
 	return last
+}
+
+// polarityShadowDismissed: functions in which an outer error variable, already found nil, is handed back after an inner call failed —
+// looked at and dismissed, with the reason. One symbol per line.
+var polarityShadowDismissed = map[string]string{
+	"hap/pair.NewSetupServerSession": "the inner `salt, v, err :=` shadows the outer err: (nil, nil) is returned only if srp.ComputeVerifier fails, which takes a failing random source — outside every quantifier (dismissed in the fourth hunt)",
 }
